@@ -440,7 +440,7 @@ theorem lattice_layer_iff (c : LatCfg) (units : Nat) (vals : List Rat) (eps : Ra
 
 /-- **C12 (KFL, monotonicity).** Accepted iff for every monotone dimension, adjacent keypoint
 pair and term, the difference of the `sign(scale)`-oriented factor weights is `≥ −eps`.
-(The bound assertions — `kflBounds` — are modelled and tied but have no iff theorem here; kernel
+(The bound assertions are `kfl_bounds_iff` below, the whole `assert_constraints` is `kfl_iff`; kernel
 non-negativity is not asserted when both bounds or none are given: coverage gap, see the evidence.) -/
 theorem kfl_mono_iff (ls dims terms : Nat) (monos : List Int) (w : List (List (List Rat)))
     (scale : List Rat) (eps : Rat) :
@@ -462,6 +462,161 @@ theorem kfl_mono_iff (ls dims terms : Nat) (monos : List Int) (w : List (List (L
       exact h d hd hm j hj t ht
     · rw [if_neg hm]
 
+
+/-! ## KroneckerFactoredLattice: bound assertions -/
+
+/-- `reduce_max(|weights[:, d, t]|)` over the `ls` keypoints (`0` for an empty reduction, which
+`ls ≥ 2` excludes) — the largest factor the 1-D piece of dimension `d`, term `t` can contribute -/
+def kflMaxAbs (ls : Nat) (w : List (List (List Rat))) (d t : Nat) : Rat :=
+  match (List.range ls).map (fun k => Rat.abs (get3 w k d t)) with
+  | [] => 0
+  | x :: xs => rmax x xs
+
+/-- `reduce_prod` of the per-dimension maxima: the code's `max_output_values` of term `t` -/
+def kflMaxOut (ls dims : Nat) (w : List (List (List Rat))) (t : Nat) : Rat :=
+  rprod ((List.range dims).map (fun d => kflMaxAbs ls w d t))
+
+theorem kflMaxAbs_le_iff (ls : Nat) (w : List (List (List Rat))) (d t : Nat) (c : Rat) (hls : 0 < ls) :
+    kflMaxAbs ls w d t ≤ c ↔ ∀ k, k < ls → |get3 w k d t| ≤ c := by
+  unfold kflMaxAbs
+  obtain ⟨n, rfl⟩ : ∃ n, ls = n + 1 := ⟨ls - 1, by omega⟩
+  rw [List.range_succ_eq_map]
+  simp only [List.map_cons, List.map_map, rmax_le_iff, List.mem_map, List.mem_range, Function.comp,
+    forall_exists_index, and_imp, forall_apply_eq_imp_iff₂, ratAbs_eq]
+  constructor
+  · rintro ⟨h0, hs⟩ k hk
+    cases k with
+    | zero => exact h0
+    | succ k => exact hs k (by omega)
+  · intro h
+    exact ⟨h 0 (by omega), fun k hk => h (k + 1) (by omega)⟩
+
+theorem kflMaxAbs_attained (ls : Nat) (w : List (List (List Rat))) (d t : Nat) (hls : 0 < ls) :
+    ∃ k, k < ls ∧ kflMaxAbs ls w d t = |get3 w k d t| := by
+  unfold kflMaxAbs
+  obtain ⟨n, rfl⟩ : ∃ n, ls = n + 1 := ⟨ls - 1, by omega⟩
+  rw [List.range_succ_eq_map]
+  simp only [List.map_cons, List.map_map]
+  have := rmax_mem (Rat.abs (get3 w 0 d t))
+    ((List.range n).map ((fun k => Rat.abs (get3 w k d t)) ∘ Nat.succ))
+  rcases List.mem_cons.mp this with h | h
+  · exact ⟨0, by omega, by rw [h, ratAbs_eq]⟩
+  · obtain ⟨k, hk, e⟩ := List.mem_map.mp h
+    exact ⟨k + 1, by simpa using hk, by rw [← e]; simp [ratAbs_eq]⟩
+
+theorem kflMaxAbs_nonneg (ls : Nat) (w : List (List (List Rat))) (d t : Nat) : 0 ≤ kflMaxAbs ls w d t := by
+  rcases Nat.eq_zero_or_pos ls with h | h
+  · subst h; simp [kflMaxAbs]
+  · obtain ⟨k, _, e⟩ := kflMaxAbs_attained ls w d t h
+    rw [e]; exact abs_nonneg _
+
+theorem rprod_map_le {α : Type} (l : List α) (f g : α → Rat) (h : ∀ a ∈ l, 0 ≤ f a ∧ f a ≤ g a) :
+    0 ≤ rprod (l.map f) ∧ rprod (l.map f) ≤ rprod (l.map g) := by
+  induction l with
+  | nil => simp [rprod]
+  | cons a l ih =>
+    have h1 := h a (by simp)
+    have h2 := ih (fun b hb => h b (by simp [hb]))
+    simp only [List.map_cons, rprod]
+    exact ⟨mul_nonneg h1.1 h2.1, mul_le_mul h1.2 h2.2 h2.1 (le_trans h1.1 h1.2)⟩
+
+/-- the code's `max_output_values ≤ c` says: at EVERY vertex (choice `κ` of one keypoint per
+dimension) the absolute value of term `t`'s product of factor weights is `≤ c` -/
+theorem kflMaxOut_le_iff (ls dims : Nat) (w : List (List (List Rat))) (t : Nat) (c : Rat) (hls : 0 < ls) :
+    kflMaxOut ls dims w t ≤ c ↔
+      ∀ κ : Nat → Nat, (∀ d, d < dims → κ d < ls) →
+        rprod ((List.range dims).map (fun d => |get3 w (κ d) d t|)) ≤ c := by
+  unfold kflMaxOut
+  constructor
+  · intro h κ hκ
+    refine le_trans (rprod_map_le _ _ _ (fun d hd => ⟨abs_nonneg _, ?_⟩)).2 h
+    exact (kflMaxAbs_le_iff ls w d t _ hls).mp le_rfl (κ d) (hκ d (List.mem_range.mp hd))
+  · intro h
+    choose κ hκ using fun d => kflMaxAbs_attained ls w d t hls
+    have := h κ (fun d _ => (hκ d).1)
+    have e : (List.range dims).map (fun d => kflMaxAbs ls w d t)
+        = (List.range dims).map (fun d => |get3 w (κ d) d t|) :=
+      List.map_congr_left (fun d _ => (hκ d).2)
+    rw [e]; exact this
+
+
+/-- the explicit statement of the KFL bound assertions (one unit):
+* no bound: nothing is asserted;
+* both bounds: every term's `max_output_values` is within `eps` of `1` (slack `1 − Π_d max_k |w_kdt| ≥ −eps`;
+  by `kflMaxOut_le_iff`: `|Π_d w_{κ(d) d t}| ≤ 1 + eps` at every vertex `κ`) and every scale entry
+  lies in `[−(hi−lo)/2, (hi−lo)/2]` (NO eps);
+* only one bound: every factor weight is `≥ 0` (NO eps) and every scale entry has the right sign. -/
+def KflBoundsOK (ls dims terms : Nat) (lo hi : Option Rat) (w : List (List (List Rat))) (scale : List Rat)
+    (eps : Rat) : Prop :=
+  match lo, hi with
+  | none, none => True
+  | some l, some h =>
+    (∀ t, t < terms → -eps ≤ 1 - kflMaxOut ls dims w t) ∧
+      (∀ s ∈ scale, -((h - l) / 2) ≤ s ∧ s ≤ (h - l) / 2)
+  | some _, none =>
+    (∀ k, k < ls → ∀ d, d < dims → ∀ t, t < terms → 0 ≤ get3 w k d t) ∧ (∀ s ∈ scale, 0 ≤ s)
+  | none, some _ =>
+    (∀ k, k < ls → ∀ d, d < dims → ∀ t, t < terms → 0 ≤ get3 w k d t) ∧ (∀ s ∈ scale, s ≤ 0)
+
+/-- **C12 (KFL, bounds).** `_assert_bound_constraints` accepts iff the covered bound statements
+hold: with both bounds, every term's maximal absolute output is `≤ 1 + eps` and the scale lies in
+`±(output_max − output_min)/2`; with a single bound every factor weight is non-negative and the
+scale has the sign of the bound (these comparisons carry no `eps` in the code). -/
+theorem kfl_bounds_iff (ls dims terms : Nat) (lo hi : Option Rat) (w : List (List (List Rat)))
+    (scale : List Rat) (eps : Rat) :
+    kflBounds ls dims terms lo hi w scale eps = true ↔ KflBoundsOK ls dims terms lo hi w scale eps := by
+  unfold kflBounds KflBoundsOK
+  cases lo with
+  | none =>
+    cases hi with
+    | none => simp
+    | some h =>
+      simp only [Bool.and_eq_true, List.all_eq_true, List.mem_range, Bool.not_eq_true',
+        decide_eq_false_iff_not, not_lt]
+  | some l =>
+    cases hi with
+    | none =>
+      simp only [Bool.and_eq_true, List.all_eq_true, List.mem_range, Bool.not_eq_true',
+        decide_eq_false_iff_not, not_lt]
+    | some h =>
+      simp only [Bool.and_eq_true, List.all_eq_true, List.mem_range, decide_eq_true_eq,
+        Bool.not_eq_true', decide_eq_false_iff_not, not_lt]
+      rfl
+
+/-- **C12 (KFL, bounds at vertex level).** With both bounds and `ls ≥ 1`, the first conjunct says:
+for every term and EVERY vertex of the lattice the absolute product of the factor weights is
+within `eps` of `1`. -/
+theorem kfl_bounds_both_vertex_iff (ls dims terms : Nat) (l h : Rat) (w : List (List (List Rat)))
+    (scale : List Rat) (eps : Rat) (hls : 0 < ls) :
+    kflBounds ls dims terms (some l) (some h) w scale eps = true ↔
+      (∀ t, t < terms → ∀ κ : Nat → Nat, (∀ d, d < dims → κ d < ls) →
+        -eps ≤ 1 - rprod ((List.range dims).map (fun d => |get3 w (κ d) d t|))) ∧
+      (∀ s ∈ scale, -((h - l) / 2) ≤ s ∧ s ≤ (h - l) / 2) := by
+  rw [kfl_bounds_iff]
+  unfold KflBoundsOK
+  simp only
+  refine and_congr_left (fun _ => forall_congr' fun t => forall_congr' fun _ => ?_)
+  have := kflMaxOut_le_iff ls dims w t (1 + eps) hls
+  constructor
+  · intro h1 κ hκ
+    have := this.mp (by linarith) κ hκ
+    linarith
+  · intro h1
+    have := this.mpr (fun κ hκ => by have := h1 κ hκ; linarith)
+    linarith
+
+/-- **C12 (KFL).** `assert_constraints` of the KroneckerFactoredLattice accepts iff the monotonicity
+slacks are `≥ −eps` and the bound statements hold. -/
+theorem kfl_iff (ls dims terms : Nat) (monos : List Int) (lo hi : Option Rat)
+    (w : List (List (List Rat))) (scale : List Rat) (eps : Rat) :
+    acceptsKfl ls dims terms monos lo hi w scale eps = true ↔
+      (∀ d, d < min dims monos.length → monos.getD d 0 ≠ 0 → ∀ j, j < ls - 1 → ∀ t, t < terms →
+        -eps ≤ sign (getV scale t) * get3 w (j + 1) d t - sign (getV scale t) * get3 w j d t) ∧
+      KflBoundsOK ls dims terms lo hi w scale eps := by
+  unfold acceptsKfl
+  rw [Bool.and_eq_true, kfl_mono_iff, kfl_bounds_iff]
+
+
 /-! ### non-vacuity: concrete kernels on both sides of every iff -/
 example : acceptsLattice { sizes := [2, 2], monos := [1, 0], edge := [(0, 1, 1)], trap := [], mdom := [], rdom := [], jmono := [], lo := some 0, hi := some 1 } 1 [0, 0, 1/2, 1] (1 / 1000000) = true := by
   decide +kernel
@@ -479,5 +634,19 @@ example : acceptsLinear [1, 1] [(0, 1)] [] [none, none] [none, none] .l1 [1/4, 3
   decide +kernel
 example : acceptsPwl 1 (some 0) (some 1) true false none [0, 1/2, 1/4] (1 / 1000000) = true := by decide +kernel
 example : acceptsPwl 1 (some 0) (some 1) true false none [1/8, 1/2, 1/4] (1 / 1000000) = false := by decide +kernel
+-- KFL, both bounds: two keypoints, two dims, one term; max output 1/2·1 = 1/2 ≤ 1: accepted
+example : acceptsKfl 2 2 1 [1, 0] (some 0) (some 2) [[[1/4], [1]], [[1/2], [-1]]] [1] (1 / 1000000) = true := by
+  decide +kernel
+-- max output 2·1 > 1 + eps: rejected; scale outside ±(hi−lo)/2: rejected
+example : kflBounds 2 2 1 (some 0) (some 2) [[[1/4], [1]], [[2], [-1]]] [1] (1 / 1000000) = false := by
+  decide +kernel
+example : kflBounds 2 2 1 (some 0) (some 2) [[[1/4], [1]], [[1/2], [-1]]] [3/2] (1 / 1000000) = false := by
+  decide +kernel
+-- single bound: a negative factor weight or a negative scale is rejected, no eps
+example : kflBounds 2 2 1 (some 0) none [[[1/4], [1]], [[1/2], [-1/100000000]]] [1] (1 / 1000000) = false := by
+  decide +kernel
+example : kflBounds 2 2 1 (some 0) none [[[1/4], [1]], [[1/2], [0]]] [1] (1 / 1000000) = true := by decide +kernel
+example : kflBounds 2 2 1 none (some 0) [[[1/4], [1]], [[1/2], [0]]] [1] (1 / 1000000) = false := by decide +kernel
+example : kflMaxOut 2 2 [[[1/4], [1]], [[1/2], [-1]]] 0 = 1/2 := by decide +kernel
 
 end Tfl.C12
